@@ -21,6 +21,9 @@ type FuncResult struct {
 // verifyFunc generates the obligations of fn under contract ct.
 func (p *Prog) verifyFunc(fn *ssa.Function, ct *Contract) (res *FuncResult) {
 	key := funcKey(fn)
+	if ct != nil && baseKey(ct.Key) == key {
+		key = ct.Key // contract variants keep their suffix in obligation names
+	}
 	vc := newVC(p, key)
 	res = &FuncResult{Key: key, VC: vc}
 	defer func() {
@@ -94,6 +97,10 @@ func (p *Prog) verifyFunc(fn *ssa.Function, ct *Contract) (res *FuncResult) {
 	}
 	for _, rq := range ct.Requires {
 		vc.assumeRaw(pre.evalBool(rq.Expr))
+	}
+	for _, as := range ct.Assumes {
+		vc.assumeRaw(pre.evalBool(as.Expr))
+		vc.trusted["assumed-invariant:"+key+"["+as.Label+"]: "+as.Text] = true
 	}
 	// cover: the precondition is satisfiable
 	vc.obls = append(vc.obls, &Obligation{Name: key + "/cover[entry]", Kind: "cover", Goal: tFalse, NAssume: len(vc.assumes), Func: key, Cover: true, Pos: p.pos(fn.Pos()), Clause: "requires and typing assumptions are satisfiable"})
